@@ -90,7 +90,7 @@ def nullable_enum_cases():
                 if with_null:
                     docs.append({"doc": {"mode": None, "modes": []}, "cls": "enum-member", "path": ("mode",), "expect": "ACC"})
                     docs.append({"doc": {"mode": vals[0], "modes": [vals[-1], None]}, "cls": "enum-member", "path": ("modes", 1), "expect": "ACC"})
-                out.append(Case("c08ne%d" % n, root, docs, fam="nullable-enum/%s/%s/%s" % (t, "null-last" if tl[1] == "null" else "null-first", "lists-null" if with_null else "no-null"), no_model=True))
+                out.append(Case("c08ne%d" % n, root, docs, fam="nullable-enum/%s/%s/%s" % (t, "null-last" if tl[1] == "null" else "null-first", "lists-null" if with_null else "no-null")))
                 n += 1
     return out
 
@@ -134,6 +134,8 @@ def run(ctx):
                     c.fam, json.dumps(d["doc"]), d["cls"], "/".join(map(str, d["path"])), d["expect"], o.get("v"), o.get("err", "")[:120]))
                 nne += 1
                 break
+    from vlib.valuecheck import report_tie
+    report_tie(ctx, ne, "enum membership")
     def skip(c, d):
         # null at an optional (pointer) position is the generator-wide spelling of "absent" (see C09): not a membership question
         if d["cls"] != "enum" or not d["path"]:
